@@ -311,6 +311,11 @@ def task_fault(arg):
     lines = text.split("\n")
     ncols = len(lines[0].split())
     bad = [i for i, l in enumerate(lines[1:-1], 1) if len(l.split()) != ncols]
+    rows = lines[1:-1]
+    completed = state["calls"] - (1 if state["calls"] >= k + 1 else 0)
+    dup = [i for i, l in enumerate(rows, 1) if l == lines[0]]
+    if dup or (not bad and text.endswith("\n") and len(rows) != completed):
+        viol.append({"signature": f"C16/{driver}/mode-{mode}/log/not-one-header-plus-one-row-per-completed-call-after-failing-field/{pos}", "what": f"a field function raised during logger call {k} and the run was started again on the same object; the log holds the header again at lines {dup[:3]} and {len(rows)} rows after the first header for {completed} completed logger calls", "replay": {"check": PID, "func": "task_fault", "arg": arg}})
     if not text.endswith("\n") or bad:
         viol.append({"signature": f"C16/{driver}/mode-{mode}/log/torn-row-after-failing-field/{pos}", "what": f"a field function raised during logger call {k}; after the run was continued the log holds malformed rows at lines {bad[:3]} (expected {ncols} columns): {[lines[i] for i in bad[:2]]}", "replay": {"check": PID, "func": "task_fault", "arg": arg}})
     return {"counters": counters, "violations": viol, "samples": []}
@@ -332,7 +337,7 @@ def run(tier, seed):
     fixed += [{"driver": "Canonical", "mode": m, "declared": dm, "steps": 3, "interval": 1, "pre": p} for m, dm in (("w", "a"), ("a", "w")) for p in (False, True)]
     for r in pmap(__name__, "task_fixed", fixed):
         acc.add(r)
-    faults = [{"driver": d, "mode": "a", "pos": p, "k": k, "steps": 3} for d in ("Canonical", "ForceBias") for p in ("first", "middle", "last") for k in range(0, 4)]
+    faults = [{"driver": d, "mode": m, "pos": p, "k": k, "steps": 3} for d in ("Canonical", "ForceBias") for m in ("a", "w") for p in ("first", "middle", "last") for k in range(0, 4)]
     for r in pmap(__name__, "task_fault", faults):
         acc.add(r)
     rep.violations = acc.violations
